@@ -213,3 +213,58 @@ Example c08_star_check_at_zero :
   c08_star_check (2%nat, (1%nat, -1 # 2), (1%nat, 0)) = 0%nat /\
   c08_star_check (2%nat, (1%nat, 1 # 2), (2%nat, 0)) = 0%nat.
 Proof. repeat split; vm_compute; reflexivity. Qed.
+
+(* ------------------------------------------------------------------------- *)
+(** * the leastness oracle: verdict 0 means star(x) is below the exact solution y *)
+Local Close Scope Q_scope.
+
+Lemma trop_of_xr_inv r a : trop_of_xr r = Some a -> r = xr_of_trop a.
+Proof. destruct r; cbn; intros H; inversion H; reflexivity. Qed.
+Lemma ereal_of_xr_inv r a : ereal_of_xr r = Some a -> r = xr_of_ereal a.
+Proof.
+  destruct r as [| |q|]; cbn; try discriminate.
+  - destruct (nnb q) eqn:E; [|discriminate]. intros H. inversion H. cbn. f_equal. symmetry. apply nn_of_Qc_qv, E.
+  - intros H. inversion H. reflexivity.
+Qed.
+Lemma xr_eqb_refl_trop b : xr_eqb (xr_of_trop b) (xr_of_trop b) = true.
+Proof.
+  destruct b as [|q|]; try reflexivity. unfold xr_eqb. cbn.
+  assert (H : Qle_bool (this q) (this q) = true) by (apply Qle_bool_iff, Qle_refl). rewrite H. reflexivity.
+Qed.
+Lemma xr_eqb_refl_ereal b : xr_eqb (xr_of_ereal b) (xr_of_ereal b) = true.
+Proof.
+  destruct b as [q|]; try reflexivity. unfold xr_eqb. cbn.
+  assert (H : Qle_bool (this (qv q)) (this (qv q)) = true) by (apply Qle_bool_iff, Qle_refl). rewrite H. reflexivity.
+Qed.
+
+Theorem least_check_sound_viterbi x y s :
+  c08_least_check (2%nat, x, y, s) = 0%nat ->
+  forall a b, trop_of_xr (w_xr x) = Some a -> trop_of_xr (w_xr y) = Some b ->
+    b = add trop_ops (one trop_ops) (mul trop_ops a b) ->
+    xle (w_xr s) (xr_of_trop b) = true.
+Proof.
+  intros H a b Ha Hb Hsol. unfold c08_least_check in H. cbn [oracle_of i_in i_add i_one i_mul] in H.
+  rewrite Ha, Hb in H. cbn [negb andb] in H.
+  apply trop_of_xr_inv in Ha. apply trop_of_xr_inv in Hb. rewrite Ha, Hb in H.
+  rewrite lift_t2_emb in H. change (XFin 0) with (xr_of_trop (TFin 0)) in H. rewrite lift_t2_emb in H.
+  cbn [add one mul trop_ops] in Hsol. rewrite <- Hsol, xr_eqb_refl_trop in H. cbn [andb] in H.
+  destruct (xle (w_xr s) (xr_of_trop b)); [reflexivity | discriminate H].
+Qed.
+Theorem least_check_sound_real x y s :
+  c08_least_check (0%nat, x, y, s) = 0%nat ->
+  forall a b, ereal_of_xr (w_xr x) = Some a -> ereal_of_xr (w_xr y) = Some b ->
+    b = add ereal_ops (one ereal_ops) (mul ereal_ops a b) ->
+    xle (w_xr s) (xr_of_ereal b) = true.
+Proof.
+  intros H a b Ha Hb Hsol. unfold c08_least_check in H. cbn [oracle_of i_in i_add i_one i_mul] in H.
+  rewrite Ha, Hb in H. cbn [negb andb] in H.
+  apply ereal_of_xr_inv in Ha. apply ereal_of_xr_inv in Hb. rewrite Ha, Hb in H.
+  rewrite !lift_e2_emb in H. cbn [zero one ereal_ops] in H.
+  cbn [add one mul ereal_ops] in Hsol. rewrite <- Hsol, xr_eqb_refl_ereal in H. cbn [andb] in H.
+  destruct (xle (w_xr s) (xr_of_ereal b)); [reflexivity | discriminate H].
+Qed.
+Example least_check_ex :
+  TFin 0%Qc = add trop_ops (one trop_ops) (mul trop_ops (TFin 0%Qc) (TFin 0%Qc)) /\
+  c08_least_check (2%nat, (1%nat, 0%Q), (1%nat, 0%Q), (2%nat, 0%Q)) = 3%nat /\
+  c08_least_check (2%nat, (1%nat, 0%Q), (1%nat, 0%Q), (1%nat, 0%Q)) = 0%nat.
+Proof. repeat split; vm_compute; reflexivity. Qed.
